@@ -51,3 +51,8 @@ add("C18", "exploration", "URL composer / component model compared with urlsplit
     "compared component-wise with an independent composer; URL.replace is run for every subset of <=2 (thorough 3) of the 8 components on 90 base URLs and compared with a component model; the "
     "query helpers are compared with a multi-value list model; repr() must mask exactly the password.",
     "Generator domain = what a URL can represent (stated in the evidence assumptions); two known findings (decoded path pasted unquoted) are listed in known_findings.json and matched only when the observed components equal what that mechanism predicts.")
+add("C07", "exploration", "lexical path-resolution reference model + ground-truth tree compared with the server-boundary observation; sys.addaudithook 'open' monitor for files outside the served directory; bounded-exhaustive request paths",
+    "Every request path over a 21-segment alphabet (dot segments, empty segments, dotted and percent names, sibling/parent secrets, a non-regular entry) to depth 3 (thorough 4), with and without "
+    "trailing slash, is sent to the real Files and Pages apps of both interfaces (directory given absolute, relative to a changed cwd, and package-relative); the outcome is compared with the model, "
+    "every 'open' audit event during the request must lie inside the served directory, every file is requested at its own path, and Pages redirects are followed to the index page.",
+    "Resolution is lexical (no symlinks in the workload); trailing slash after a non-directory accepts {slash-less result, 404}; one known finding (literal '%' in a redirected path) is keyed by mechanism.")
